@@ -15,7 +15,8 @@ var idPool = []string{"1", "2", "3", "a b", "é", "0", "x\"y"}
 
 type dataOpts struct {
 	nullProb    float64
-	plantBad    bool // plant nulls at non-null positions / resolver errors (C02/C05 only)
+	plantBad    bool    // plant nulls at non-null positions / resolver errors (C02/C05 only)
+	nullElems   float64 // share of the elements of [T!] lists that are null (rule-breaking data)
 	unknownProb float64
 	unknownAny  bool // C02 only: a service may also not know an entity for which it would supply non-null fields
 	safeStrings bool
@@ -131,6 +132,10 @@ func genVal(r *rand.Rand, fed *federation, d *dataGraph, t *ast.Type, o dataOpts
 		}
 		out := listVal{}
 		for i := 0; i < n; i++ {
+			if t.Elem.NonNull && o.nullElems > 0 && r.Float64() < o.nullElems {
+				out = append(out, nil)
+				continue
+			}
 			out = append(out, genVal(r, fed, d, t.Elem, o, depth+1))
 		}
 		if n >= 2 && r.Intn(4) == 0 {
